@@ -47,6 +47,18 @@ COMPONENTS_REAL = [
 ]
 COMPONENTS_STUB = ["the file system (in-memory, buffered writes committed at flush/close; sim/fs_fake.py)"]
 
+RULE = (
+    "one case = one generated operation history (2-25 operations incl. reopen points) plus, in 45% of the cases, 1-2 "
+    "faults at syscalls the fault-free run performs; non-trivial = at least one reopen after at least one operation; "
+    "distinct = distinct (operation kind, key, reopen form, fault kind@syscall) sequences"
+)
+ASSUMPTIONS = [
+    "one instance at a time (as the property states); no second process on the directory",
+    "the disk is modelled at write()/close() granularity: a write reaches the disk when the file is flushed or closed; "
+    "no reordering of committed writes, no fsync semantics (a crash is a process kill, not a power loss)",
+    "values are msgpack-stable (str-keyed dicts, lists, ints, floats, str, bytes, numpy arrays / scalars compared by value)",
+    "sampling, not proof",
+]
 KEYS = ["a", "b", "sample", "a/b", "k#1", "sp ace", "ünï", "%41", "", "..", "A"]
 ABSENT = "__absent__"
 
